@@ -1007,11 +1007,11 @@ class ArgumentParser(ParserDeprecations, ActionsContainer, ArgumentLinking, argp
         for num, (_, parser) in enumerate(parents):
             key = ".".join(k for k, _ in parents[num:])  # section of this parser inside the parent's config
             for pattern in parser.default_config_files:
-                files = sorted(glob.glob(os.path.expanduser(pattern)))
+                files = sorted(f for f in glob.glob(os.path.expanduser(pattern)) if not os.path.isdir(f))
                 default_config_files += [(key, v) for v in files]
 
         for pattern in self.default_config_files:
-            files = sorted(glob.glob(os.path.expanduser(pattern)))
+            files = sorted(f for f in glob.glob(os.path.expanduser(pattern)) if not os.path.isdir(f))
             default_config_files += [(None, x) for x in files]
 
         if len(default_config_files) > 0:
